@@ -125,6 +125,16 @@ def check_energies(ctx: Ctx, c: Dict[str, Any]) -> None:
         o = guarded(name, lambda: fn(lin), what="linear")
         if o is not None and float(o) != 0.0:
             bad(name, "linear transformation (matrix) has non-zero energy", what="linear")
+    # default spacing: without 'spacing' every term differentiates w.r.t. the normalised cube, i.e. with step 2/(n-1) per axis in (x, y, z) order
+    dflt = [2.0 / (m - 1) for m in n]
+    for name, fn, kw in (("bending_loss", L.bending_loss, {}), ("curvature_loss", L.curvature_loss, {}), ("diffusion_loss", L.diffusion_loss, {}),
+                         ("divergence_loss", L.divergence_loss, {}), ("total_variation_loss", L.total_variation_loss, {}),
+                         ("grad_loss", L.grad_loss, dict(p=2, q=1)), ("elasticity_loss", L.elasticity_loss, dict(first_parameter=1.0, second_parameter=0.5))):
+        a_ = guarded(name, lambda: fn(u, reduction="none", **kw), what="default_spacing")
+        b_ = guarded(name, lambda: fn(u, spacing=dflt, reduction="none", **kw), what="default_spacing")
+        if a_ is not None and b_ is not None and (a_.shape != b_.shape or float((a_ - b_).abs().max()) > 1e-6 * max(1.0, float(b_.abs().max()))):
+            bad(name, f"without 'spacing' the result differs from spacing=2/(n-1) per axis {dflt} (max difference {float((a_ - b_).abs().max()) if a_.shape == b_.shape else 'shape'})",
+                what="default_spacing")
     # loss classes of losses.flow agree with the functional forms
     for cls, fn in ((LF.Bending, L.bending_loss), (LF.Curvature, L.curvature_loss), (LF.Diffusion, L.diffusion_loss),
                     (LF.Divergence, L.divergence_loss), (LF.TotalVariation, L.total_variation_loss)):
